@@ -12,7 +12,7 @@ import (
 
 // C19 — script-capable URL schemes through any encoding; the decoder.
 
-var decAlpha = []string{"&", "#", "x", "X", ";", "0", "1", "9", "a", "F", "g", " "}
+var decAlpha = []string{"&", "#", "x", "X", ";", "0", "1", "9", "a", "F", "g", " ", "\x80", "\xff"}
 
 func evalC19Decode(w *fw.W, s, _ string) {
 	v, c := lib.VerifDecode(s)
@@ -37,7 +37,8 @@ func evalC19Decode(w *fw.W, s, _ string) {
 }
 
 var urlSchemes = []string{"data:", "java", "javascript:", "vbscript:", "view-source:", "data", "vbscript", "view-source"}
-var urlJunk = []string{"", " ", "\x01", "\x7f", "\xc2\xa0", "&#9;", " \t\n", "&#x20;&#1;"}
+var urlJunk = []string{"", " ", "\x01", "\x7f", "\xc2\xa0", "&#9;", " \t\n", "&#x20;&#1;",
+	strings.Repeat(" ", 300), strings.Repeat("\x7f\x01", 150), strings.Repeat("&#9;", 80)}
 
 func isHexDigit(c byte) bool {
 	return (c >= '0' && c <= '9') || (c >= 'a' && c <= 'f') || (c >= 'A' && c <= 'F')
@@ -61,6 +62,8 @@ func encodeByte(c byte, form int) (piece string, openDec, openHex bool) {
 		return fmt.Sprintf("&#%d", c), true, false
 	case 4:
 		return fmt.Sprintf("&#0000%d;", up), false, false
+	case 7:
+		return "&#" + strings.Repeat("0", 70) + fmt.Sprint(int(c)) + ";", false, false
 	case 5:
 		return fmt.Sprintf("&#x%x;", c), false, false
 	case 6:
@@ -69,7 +72,7 @@ func encodeByte(c byte, form int) (piece string, openDec, openHex bool) {
 	panic("form")
 }
 
-const nForms = 7
+const nForms = 8
 
 // buildEncoded assembles the value from per-byte forms; ok=false when an unterminated reference
 // would swallow the following literal byte (then the text no longer encodes the scheme).
@@ -162,8 +165,8 @@ func init() {
 		ID:        "C19",
 		QuickS:    60,
 		ThoroughS: 600,
-		Rule: "decoder: every string over {& # x X ; 0 1 9 a F g space}^<=7 (quick) / <=8 (thorough) and the overflow family &#x|&# + {0,1,9,F}^<=9 + {'',';','g'}: (value, consumed) must equal the written specification and 1<=consumed<=|s|. " +
-			"matcher: every scheme x every per-byte encoding combination (7 forms; all combinations for schemes <=5 bytes, <=3 (quick) / <=4 (thorough) non-default positions + uniform encodings for longer ones) x 8 leading-junk prefixes x one NUL or LF (raw or as reference) inserted at every piece boundary: the URL predicate must be true; " +
+		Rule: "decoder: every string over {& # x X ; 0 1 9 a F g space 0x80 0xff}^<=6 (quick) / <=7 (thorough) and the overflow family &#x|&# + {0,1,9,F}^<=9 + {'',';','g'}: (value, consumed) must equal the written specification and 1<=consumed<=|s|. " +
+			"matcher: every scheme x every per-byte encoding combination (8 forms incl. a reference with 70 leading zeros; all combinations for schemes <=5 bytes, <=3 (quick) / <=4 (thorough) non-default positions + uniform encodings for longer ones) x 11 leading-junk prefixes (incl. 300-byte runs) x one NUL or LF (raw or as reference) inserted at every piece boundary: the URL predicate must be true; " +
 			"and through IsXSS(`<a ATTR=VALUE>`) for every URL attribute x 3 quotings for the <=2 (quick) / <=3 (thorough) deviation subset; non-trivial = a reference was decoded / a scheme encoding was judged",
 		Assumptions: []string{"encodings whose unterminated reference would swallow the following literal digit are excluded (they encode a different text)"},
 		Setup: func(w *fw.W) error {
@@ -177,8 +180,8 @@ func init() {
 			return nil
 		},
 		Phases: []fw.Phase{
-			{Name: "decoder-trie", Space: "decAlpha^<=7 (quick) / <=8 (thorough)", Share: 3,
-				Run: func(w *fw.W) { w.Trie(decAlpha, 0, w.Pick(7, 8)) }, Eval: evalC19Decode},
+			{Name: "decoder-trie", Space: "decAlpha (14 symbols incl. 0x80, 0xff)^<=6 (quick) / <=7 (thorough)", Share: 3,
+				Run: func(w *fw.W) { w.Trie(decAlpha, 0, w.Pick(6, 7)) }, Eval: evalC19Decode},
 			{Name: "decoder-overflow", Space: "(&#x | &#X | &#) + {0,1,9,F}^<=9 (quick <=8) + {'', ';', 'g'}", Share: 1,
 				Run: func(w *fw.W) {
 					var pre = []string{"&#x", "&#X", "&#"}
